@@ -179,7 +179,7 @@ func (p *projection) summary() string {
 // checkCache compares the in-memory graph cache (what path finding reads
 // through ForEachNodeDirectedChannel) with the database projection: same
 // channels, same capacity, same routing policy fields in both directions.
-func (w *World) checkCache(pr *projection, what string) {
+func (w *World) checkCache(pr *projection, what string, fail func(code, format string, args ...interface{})) {
 	r := w.r
 	if w.cg.GraphCacheStatus() != graphdb.GraphCacheStatusLoaded {
 		r.Harness("graph cache not loaded")
@@ -204,24 +204,24 @@ func (w *World) checkCache(pr *projection, what string) {
 			c := pr.chans[dc.ChannelID]
 			id := scidStr(dc.ChannelID)
 			if c == nil {
-				r.Fail("cache-mismatch", "%s: path-finding cache holds channel %s (at node %s) that the graph database does not", what, id, short(k[:]))
+				fail("cache-mismatch", "%s: path-finding cache holds channel %s (at node %s) that the graph database does not", what, id, short(k[:]))
 			}
 			i := 0
 			if !dc.IsNode1 {
 				i = 1
 			}
 			if c.node[i] != k || c.node[1-i] != [33]byte(dc.OtherNode) {
-				r.Fail("cache-mismatch", "%s: cache has channel %s under other node keys than the database", what, id)
+				fail("cache-mismatch", "%s: cache has channel %s under other node keys than the database", what, id)
 			}
 			if int64(dc.Capacity) != c.capacity {
-				r.Fail("cache-mismatch", "%s: cache capacity of %s is %d, database %d", what, id, dc.Capacity, c.capacity)
+				fail("cache-mismatch", "%s: cache capacity of %s is %d, database %d", what, id, dc.Capacity, c.capacity)
 			}
 			if dc.OutPolicySet != (c.pol[i] != nil) {
-				r.Fail("cache-mismatch", "%s: cache says outgoing policy of %s/%d set=%v, database has=%v", what, id, i, dc.OutPolicySet, c.pol[i] != nil)
+				fail("cache-mismatch", "%s: cache says outgoing policy of %s/%d set=%v, database has=%v", what, id, i, dc.OutPolicySet, c.pol[i] != nil)
 			}
 			in := c.pol[1-i]
 			if (dc.InPolicy != nil) != (in != nil) {
-				r.Fail("cache-mismatch", "%s: cache incoming policy of %s/%d present=%v, database=%v", what, id, 1-i, dc.InPolicy != nil, in != nil)
+				fail("cache-mismatch", "%s: cache incoming policy of %s/%d present=%v, database=%v", what, id, 1-i, dc.InPolicy != nil, in != nil)
 			}
 			if in != nil {
 				p := dc.InPolicy
@@ -229,7 +229,7 @@ func (w *World) checkCache(pr *projection, what string) {
 					uint64(p.FeeBaseMSat) != in.base || uint64(p.FeeProportionalMillionths) != in.ppm ||
 					p.IsDisabled != in.disabled {
 
-					r.Fail("cache-mismatch", "%s: cached policy %s/%d (cltv=%d min=%d max=%d fee=%d/%d disabled=%v) differs from database (cltv=%d min=%d max=%d fee=%d/%d disabled=%v)",
+					fail("cache-mismatch", "%s: cached policy %s/%d (cltv=%d min=%d max=%d fee=%d/%d disabled=%v) differs from database (cltv=%d min=%d max=%d fee=%d/%d disabled=%v)",
 						what, id, 1-i, p.TimeLockDelta, p.MinHTLC, p.MaxHTLC, p.FeeBaseMSat, p.FeeProportionalMillionths, p.IsDisabled,
 						in.cltv, in.min, in.max, in.base, in.ppm, in.disabled)
 				}
@@ -238,7 +238,50 @@ func (w *World) checkCache(pr *projection, what string) {
 		}, func() {})
 		r.Must(err, "ForEachNodeDirectedChannel")
 	}
-	if seen != 2*len(pr.chans) {
-		r.Fail("cache-mismatch", "%s: path-finding cache holds %d directed channel entries, the database has %d channels", what, seen, len(pr.chans))
+	want := 0
+	for _, c := range pr.chans {
+		if c.node[0] == c.node[1] {
+			// both ends are the same node: one entry in that node's map
+			want++
+			r.Count("probe_selfloop_channel_in_graph")
+		} else {
+			want += 2
+		}
 	}
+	if seen != want {
+		fail("cache-mismatch", "%s: path-finding cache holds %d directed channel entries, the database has %d channels (%d expected)", what, seen, len(pr.chans), want)
+	}
+}
+
+// abstract is the projection reduced to its shape (for the distinct-states
+// measure): per channel which directions have a policy and whether it is
+// disabled, and how many nodes have / lack an announcement.
+func (p *projection) abstract() string {
+	var b bytes.Buffer
+	for _, s := range p.scids() {
+		c := p.chans[s]
+		b.WriteByte('[')
+		for d := 0; d < 2; d++ {
+			switch {
+			case c.pol[d] == nil:
+				b.WriteByte('-')
+			case c.pol[d].disabled:
+				b.WriteByte('d')
+			default:
+				b.WriteByte('e')
+			}
+		}
+		if c.node[0] == c.node[1] {
+			b.WriteByte('!')
+		}
+		b.WriteByte(']')
+	}
+	full := 0
+	for _, n := range p.nodes {
+		if n.wire != nil {
+			full++
+		}
+	}
+	fmt.Fprintf(&b, " n=%d/%d", full, len(p.nodes))
+	return b.String()
 }
